@@ -235,6 +235,25 @@ fn load_sources(thorough: bool) -> Vec<Source> {
         let d = tables::minimal_font(6, &[], &[(otmodel::tag(b"cmap"), tables::cmap_table(&[(3, 10, sub)]))]);
         v.push(Source { name: "synthetic/cmap12-only-astral-character-is-U+10000".into(), data: d, num_glyphs: 6, small: true, light: false });
     }
+    // (b3b) format 12 "identity" layout as PDF producers write it: one group that starts at character 0 / glyph 0 and spans
+    // several characters (startGlyphID 0 is an ordinary start value in format 12, not the format 13 ".notdef" convention)
+    {
+        use otmodel::tables;
+        let sub = tables::cmap12_subtable(&[(0, 0), (1, 1), (2, 2), (3, 3), (4, 4), (0x10005, 5)]);
+        let d = tables::minimal_font(7, &[], &[(otmodel::tag(b"cmap"), tables::cmap_table(&[(3, 10, sub)]))]);
+        v.push(Source { name: "synthetic/cmap12-identity-group-starting-at-glyph-0".into(), data: d, num_glyphs: 7, small: true, light: false });
+    }
+    // (b3c) Windows Big5 source (3,4) and nothing else: ASCII, original Big5 rows, HKSCS / extension rows below 0xA1 and above
+    // 0xF9 incl. codes of supplementary-plane ideographs (0x8745 = U+27267, 0xFA40 = U+20547, 0xC87A = U+200CC)
+    {
+        use otmodel::cmapenc::{self, Seg4, Term4};
+        use otmodel::tables;
+        let codes: [u32; 7] = [0x41, 0x8740, 0x8745, 0xA440, 0xC87A, 0xF9D5, 0xFA40];
+        let segs: Vec<Seg4> = codes.iter().enumerate().map(|(i, c)| Seg4::Delta { start: *c as u16, end: *c as u16, delta: (i as i32 + 1 - *c as i32) as i16 }).collect();
+        let (sub, _) = cmapenc::fmt4(&segs, Term4::Standard);
+        let d = tables::minimal_font(8, &[], &[(otmodel::tag(b"cmap"), tables::cmap_table(&[(3, 4, sub)]))]);
+        v.push(Source { name: "synthetic/big5-source-with-hkscs-and-plane-2-codes".into(), data: d, num_glyphs: 8, small: true, light: false });
+    }
     // (b4) a source cmap with one malformed entry in front of valid ones (format 4 segment whose idRangeOffset points far
     // outside the subtable): a subset must either be refused or map every other retained character correctly
     {
@@ -877,6 +896,9 @@ fn check_case(ctx: &Ctx, which: Which, case: &Case<'_>, src_map: &Option<(String
                         }
                         "Symbol" => Some(code),
                         "AppleRoman" => Some(mac_char_of(code as u8)),
+                        // Windows Big5 source: the character a code stands for, from the independent reference (a code that
+                        // stands for two characters has no single character and is left out of the comparison)
+                        "Big5" => u16::try_from(code).ok().and_then(crate::util::big5ref::decode).filter(|v| v.len() == 1).map(|v| v[0] as u32),
                         _ => None,
                     };
                     if let Some(ch) = ch {
